@@ -137,10 +137,19 @@ def queries(tier):
         (P('pkg:t/n?k=v#', H2), P('pkg:t/n?k=v', H2)),
         (P('pkg:t/ns/n@1?k=v#', H2), P('pkg:t/ns/n@1?k=', H2, '#s')),
         (P('pkg:t/n?checksum=a:', H2, ',b:00'), P('pkg:t/n?checksum=B:00,A:', H2)),
+        # fields of different lengths, one a prefix of the other: key, value, name, namespace, version, subpath
+        (P('pkg:t/n?', H1, '=v'), P('pkg:t/n?', H2, '=v')),
+        (P('pkg:t/n?a', H1, '=v&z=1'), P('pkg:t/n?a', H2, '=v&z=1')),
+        (P('pkg:t/n?k=', H1), P('pkg:t/n?k=', H2)),
+        (P('pkg:t/ns/', H1, '@1'), P('pkg:t/ns/', H2, '@1')),
+        (P('pkg:t/', H1, '/n'), P('pkg:t/', H2, '/n')),
+        (P('pkg:t/n@', H1, '?k=v'), P('pkg:t/n@', H2, '?k=v')),
+        (P('pkg:t/n#', H1), P('pkg:t/n#', H2)),
+        (P('pkg:', H1, '/n'), P('pkg:', H2, '/n')),
     ]
     for T in ('String', 'SmallString', 'Purl'):
         for i, (A, B) in enumerate(pairs):
-            if T != 'String' and i not in (0, 1, 9, 10, 11):
+            if T != 'String' and i not in (0, 1, 9, 10, 11, 15, 16):
                 continue
             if T == 'Purl':
                 sub = lambda sp: ('parse', [p.replace('pkg:t/', 'pkg:npm/') if isinstance(p, str) else p for p in sp[1]])
